@@ -5,18 +5,18 @@ import random
 ID = "C05"
 LEVEL = "exploration"
 TECHNIQUE = "differential runtime monitoring: the real BlockwiseRequest client against an independent RFC 7959 / RFC 8323 section 6 (BERT) reference server (harness/refblock.py) on a lossy virtual-time network; oracles = byte comparison of both bodies, arithmetic over the Block1/Block2 options seen on the wire (SZX 7 counted in 1024-byte units, non-final BERT blocks whole multiples of 1024), and error-or-complete-representation for misbehaving servers"
-LEVEL_TEXT = "Every combination of boundary body lengths x server size exponents 0..7 x client maximum block sizes 0..7 (7 = BERT, with 1..4 blocks per message on either side) x negotiation (initial and mid-transfer reduction, including from BERT to regular blocks) is sampled systematically, with loss/duplication of individual block exchanges and each misbehaving-server variant named in the statement (among them: a later block where block 0 is due, a later block under another response code); held on every transfer executed."
-LEVEL_NOTE = "Trusted: harness/refblock.py (reference server, independent of aiocoap), simnet, refcodec. A representation change without ETags is undetectable for any client and not generated; payloads <= 1124 bytes (k x 1024 + 100 on a BERT transport) are legitimately sent unfragmented at SZX >= 6. BERT runs on the simulated datagram transport whose remotes are given, per case, the block size exponent 7 and maximum payload size the RFC 8323 transports' remotes have; TCP framing itself is C15's matter. When a later block arrives under an unsuccessful code, handing exactly that response to the caller counts as a loud failure as well."
+LEVEL_TEXT = "Every combination of boundary body lengths x server size exponents 0..7 x client maximum block sizes 0..7 (7 = BERT, with 1..4 blocks per message on either side) x negotiation (initial and mid-transfer reduction, including from BERT to regular blocks) is sampled systematically, with loss/duplication of individual block exchanges and each misbehaving-server variant named in the statement (among them: a later block where block 0 is due, a later block under another response code, a later Block2 response without its Block2 option, a Block1 acknowledgement without its Block1 option on a non-final or -- as a bare 2.31 -- on the final block); held on every transfer executed."
+LEVEL_NOTE = "Trusted: harness/refblock.py (reference server, independent of aiocoap), simnet, refcodec. A representation change without ETags is undetectable for any client and not generated; payloads <= 1124 bytes (k x 1024 + 100 on a BERT transport) are legitimately sent unfragmented at SZX >= 6. BERT runs on the simulated datagram transport whose remotes are given, per case, the block size exponent 7 and maximum payload size the RFC 8323 transports' remotes have; TCP framing itself is C15's matter. When a later block arrives under an unsuccessful code (with or without a Block2 option), handing exactly that response to the caller counts as a loud failure as well; a successful response without the Block2 option in that place does not, whatever its payload."
 RULE = (
     "one case = one request through the default API: (method, request body length, response body length, server SZX, client max SZX, BERT blocks per message of client and server, Block1 reduction point, Block2 reduction point, loss profile, misbehaviour and its variant). "
     "Non-trivial = at least one body needed more than one block; distinct = distinct parameter tuples with lengths classified relative to the block size (below/at/above a boundary, number of blocks)"
 )
 ASSUMPTIONS = ["default TransportTuning; one-way latency 1 ms", "with random loss a transfer may legitimately fail with a time-out: such failures are counted, not judged", "a BERT-capable server never sends more 1024-byte blocks per message than the client's maximum payload size holds"]
-REQUIRED_MONITORS = {"refused_upload": 10, "request_body": 200, "response_body": 200, "block1_options": 150, "block2_options": 150, "misbehaving_server": 60, "negotiation": 60, "client_max_szx7": 120, "bert_upload": 70, "bert_reduction": 50, "bert_download": 20, "first_block_number": 30, "code_change": 20}
+REQUIRED_MONITORS = {"refused_upload": 10, "request_body": 200, "response_body": 200, "block1_options": 150, "block2_options": 150, "misbehaving_server": 60, "negotiation": 60, "client_max_szx7": 120, "bert_upload": 70, "bert_reduction": 50, "bert_download": 20, "first_block_number": 30, "code_change": 20, "block2_option_missing": 25, "block1_option_missing": 25}
 
 LENGTHS = [0, 1, 15, 16, 17, 31, 32, 33, 63, 64, 65, 127, 128, 129, 255, 256, 257, 511, 512, 513, 1023, 1024, 1025, 1124, 1125, 2047, 2048, 2049, 5000, 20000]
 ETAG_MIS = ("etag-changes", "etag-vanishes", "etag-appears")
-# (two more, "b2-first-later-block" and "b2-code-changes", are drawn in widen())
+# (more are drawn in widen(): "b2-first-later-block", "b2-code-changes", and in widen2(): "b2-option-missing", "b1-option-missing")
 MISBEHAVIOURS = ["b1-wrong-num", "b1-wrong-num-final", "b1-more-on-final", "b1-continue-on-final", "b2-wrong-num", "b2-short-with-more", "b2-repeat-prev", "b2-restart-0", "b1-observe-in-continue", "etag-changes", "etag-vanishes", "etag-appears"]
 
 
@@ -36,7 +36,7 @@ def body(r, n, tag):
     return bytes(out[:n])
 
 
-def gen(r, r2, k, tier):
+def gen(r, r2, r3, k, tier):
     method = r.choice(["PUT", "POST", "FETCH", "GET", "PUT"])
     szx = r.randrange(0, 7)
     cmax = r.choice([6, 6, 6, 5, 4, 2, 0, r.randrange(0, 7)])
@@ -65,7 +65,7 @@ def gen(r, r2, k, tier):
         if r.random() < 0.15:
             hint = True  # block size passed in through a Block1 option on the request (the older way) instead of the remote
     p = {"fail1": fail1, "hint": hint, "method": method, "szx": szx, "cmax": cmax, "req_len": req_len, "resp_len": resp_len, "red1": red1, "red2": red2, "loss": loss, "mis": mis, "mis_at": mis_at, "etag": r.choice([True, True, False])}
-    return widen(p, r2, tier)
+    return widen2(widen(p, r2, tier), r3, tier)
 
 
 NEW_MIS = ("b2-first-later-block", "b2-code-changes")
@@ -124,6 +124,45 @@ def widen(p, r2, tier):
     return p
 
 
+OPTIONLESS_MIS = ("b2-option-missing", "b1-option-missing")
+
+
+def widen2(p, r3, tier):
+    """Block responses that lack their block option (again from a generator of their own)."""
+    if r3.random() >= 0.1:
+        return p
+    budget = 80 if tier == "quick" else 400
+    p["mis"] = r3.choice(OPTIONLESS_MIS)
+    p["loss"] = None
+    p["fail1"] = None
+    if p["mis"] == "b2-option-missing":
+        # a later Block2 request is answered without a Block2 option
+        p["mis_at"] = r3.randrange(1, 4)
+        code = r3.choice(["same", "same", "same", "alt", "4.04", "5.00"])
+        p["mis_arg"] = {"code": code, "payload": "diag" if code[0] in "45" else r3.choice(["chunk", "chunk", "whole"]), "etag": r3.random() < 0.7}
+        size = unit(min(p["szx"], 6)) * (p["srv_k"] if p["szx"] == 7 else 1)
+        p["resp_len"] = size * r3.randrange(1, 5) + r3.choice([1, size // 2, size - 1, size])
+        if p["red2"] is not None:
+            p["resp_len"] = min(p["resp_len"], size + unit(min(p["red2"][1], 6)) * budget)
+    else:
+        # a Block1 request is acknowledged without a Block1 option: a non-final one with a success code or a bare 2.31,
+        # the final one with a bare 2.31
+        where = r3.choice(["nonfinal", "nonfinal", "final"])
+        p["mis_at"] = r3.randrange(0, 3)
+        p["mis_arg"] = {"where": where, "code": "continue" if where == "final" else r3.choice(["final", "final", "continue"])}
+        if p["method"] == "GET":
+            p["method"] = r3.choice(["PUT", "POST", "FETCH"])
+        # a request body of several blocks: the client starts with its own maximum size and fragments what exceeds the
+        # maximum payload size (at SZX >= 6) or one block (below)
+        tp = p["tp"]
+        first = (tp * 1024 if tp and p["cmax"] == 7 else unit(min(p["cmax"], 6)))
+        thresh = ((tp * 1024 if tp else 1024) + 100) if p["cmax"] >= 6 else first
+        low1 = min([p["szx"], p["cmax"], 6] + ([p["red1"][1]] if p["red1"] else []))
+        p["req_len"] = thresh + first * r3.randrange(0, 4) + r3.choice([1, first // 2, first])
+        p["req_len"] = min(p["req_len"], max(thresh + 1, first + unit(low1) * budget))
+    return p
+
+
 def rc_code(cls, detail):
     return (cls << 5) | detail
 
@@ -176,8 +215,8 @@ def run_case(p, seed, rep, case):
     mis_arg = None
     if p.get("mis_arg"):
         first_code = rc_code(2, 5) if p["method"] in ("GET", "FETCH") else rc_code(2, 4)
-        named = {"4.04": rc_code(4, 4), "5.00": rc_code(5, 0), "5.03": rc_code(5, 3), "4.00": rc_code(4, 0), "alt": rc_code(2, 4) if first_code == rc_code(2, 5) else rc_code(2, 5)}
-        mis_arg = dict(p["mis_arg"], code=named[p["mis_arg"]["code"]])
+        named = {"4.04": rc_code(4, 4), "5.00": rc_code(5, 0), "5.03": rc_code(5, 3), "4.00": rc_code(4, 0), "alt": rc_code(2, 4) if first_code == rc_code(2, 5) else rc_code(2, 5), "same": first_code}
+        mis_arg = dict(p["mis_arg"], code=named.get(p["mis_arg"]["code"], p["mis_arg"]["code"]))
 
     async def main(loop):
         pol = simnet.RandomPolicy(random.Random(seed + 1), **p["loss"]) if p["loss"] else simnet.Policy()
@@ -330,7 +369,9 @@ def judge(p, box, req_body, rep_body, res, rep, case):
             rep.monitor("misbehaving_server")
             if p["mis"] in NEW_MIS:
                 rep.monitor({"b2-first-later-block": "first_block_number", "b2-code-changes": "code_change"}[p["mis"]])
-            passed_on = p["mis"] == "b2-code-changes" and kind == "response" and (srv.changed_first[0] >> 5) != 2 and (out[1], out[2]) == srv.changed_first
+            if p["mis"] in OPTIONLESS_MIS:
+                rep.monitor({"b2-option-missing": "block2_option_missing", "b1-option-missing": "block1_option_missing"}[p["mis"]])
+            passed_on = p["mis"] in ("b2-code-changes", "b2-option-missing") and kind == "response" and (srv.changed_first[0] >> 5) != 2 and (out[1], out[2]) == srv.changed_first
             if passed_on:
                 # the server's unsuccessful response handed to the caller as it is (its code, its payload and nothing
                 # else) is a loud failure too: nothing of the earlier blocks is passed off under it
@@ -357,7 +398,7 @@ def judge(p, box, req_body, rep_body, res, rep, case):
     if res.loop_exceptions:
         rep.violation("loop-exception/" + str(res.loop_exceptions[0].get("exc_type")), "an exception reached the event loop", wit(loop=res.loop_exceptions[:2]), case)
     size1 = 1 << (min(p["szx"], p["cmax"], 6) + 4)
-    sig = (p.get("tp"), p.get("srv_k"), (p.get("mis_arg") or {}).get("code"), (p.get("mis_arg") or {}).get("payload"), p["method"], p["szx"], p["cmax"], lenclass(p["req_len"], size1), lenclass(p["resp_len"], size1), p["red1"] is not None, p["red2"] is not None, p["loss"] is not None, p["mis"], p["etag"], bool(p.get("fail1")), bool(p.get("hint")))
+    sig = (p.get("tp"), p.get("srv_k"), (p.get("mis_arg") or {}).get("code"), (p.get("mis_arg") or {}).get("payload"), (p.get("mis_arg") or {}).get("where"), p["method"], p["szx"], p["cmax"], lenclass(p["req_len"], size1), lenclass(p["resp_len"], size1), p["red1"] is not None, p["red2"] is not None, p["loss"] is not None, p["mis"], p["etag"], bool(p.get("fail1")), bool(p.get("hint")))
     rep.case(sig, nontrivial=len(b1reqs) > 1 or len(b2reqs) > 0)
 
 
@@ -381,6 +422,10 @@ def misbehaviour_manifested(p, srv, req_body, rep_body):
         return srv.first_later > 0
     if mis == "b2-code-changes":
         return srv.code_changed > 0
+    if mis == "b2-option-missing":
+        return srv.b2_opt_missing > 0
+    if mis == "b1-option-missing":
+        return srv.b1_opt_missing > 0
     if mis in ETAG_MIS:
         # the representation changed between the first block and a later one
         return at >= 1 and len(srv.served) > at and srv.served[0][0] == 0
@@ -421,8 +466,9 @@ def run_shard(shard, rep, only=None):
 
     r = random.Random(shard["seed"])
     r2 = random.Random(shard["seed"] * 7919 + 5)
+    r3 = random.Random(shard["seed"] * 104729 + 11)
     for k in range(shard["n"]):
-        p = gen(r, r2, k, shard["tier"])
+        p = gen(r, r2, r3, k, shard["tier"])
         case = ["case", k]
         if only is not None and only != case:
             continue
